@@ -23,6 +23,9 @@ with a shrunk failing input, I != S):
   8 setops: intersection loop starts at L[3:] - needs >= 3 maps where the third removes a key
   (`score <= scores[0]` -> `score < scores[0]` in addmany is an equivalent mutation: the equal-score item is
   inserted at index 0 and immediately evicted.)
+  `bisect <x> <scores>` compares the model's binary search (`NBest.bisectLeft`, theorem `c17_bisect_left`) with
+  CPython's `bisect.bisect_left` (a trusted-base definition checked on every run); mutation 4 re-run after the
+  addition: still caught.
 """
 import itertools
 import struct
@@ -257,10 +260,18 @@ def gen_nbest(rng, tier, idx):
                 cmds.append(["pop"])
         elif r < 0.92:
             cmds.append(["best"])
-        elif r < 0.97:
+        elif r < 0.96:
             cmds.append(["len"])
-        else:
+        elif r < 0.98:
             cmds.append(["cap"])
+        else:
+            # the binary search NBest.add relies on (CPython's bisect.bisect_left vs the model's `bisectLeft`;
+            # `c17_nbest_bisect` ties it to the model's linear scan): ascending lists with runs of equal scores,
+            # probes below / inside / between / above; one list in five is not sorted (model against CPython only)
+            a = sorted(rng.randrange(nscores + 2) for _ in range(rng.choice([0, 1, 2, 3, 5, 8, 13, 40])))
+            if rng.random() < 0.2:
+                rng.shuffle(a)
+            cmds.append(["bisect", rng.randrange(-1, nscores + 3)] + a)
     cmds.append(["best"])
     return {"session": "setopsnbest", "cfg": [["cfg", "scale", scale]], "cmds": cmds}
 
@@ -340,6 +351,9 @@ def impl_nbest(hyp, case):
                 outs.append(str(len(nb)))
             elif op == "cap":
                 outs.append(str(nb.capacity()))
+            elif op == "bisect":
+                import bisect
+                outs.append(str(bisect.bisect_left(list(c[2:]), c[1])))
             else:
                 raise ValueError(c)
         except Exception as e:
@@ -482,4 +496,6 @@ THEOREMS = ["Hyp.C17." + t for t in (
     "c17_union_value", "c17_union_keys", "c17_inter_value", "c17_inter_keys", "c17_union_perm",
     "c17_inter_perm", "c17_union_nil", "c17_union_single", "c17_union_single_one", "c17_inter_nil",
     "c17_inter_single", "c17_inter_none_dropped", "c17_merge_queue_shrinks", "c17_sum_is_sum",
-    "c17_nbest_adds", "c17_nbest_sequence", "c17_nbest_pop", "c17_nbest_len", "c17_nbest_new")]
+    "c17_nbest_adds", "c17_nbest_sequence", "c17_nbest_pop", "c17_nbest_len", "c17_nbest_new",
+    # the results are maps (distinct keys); the model's linear scan is CPython's bisect_left
+    "c17_union_is_map", "c17_inter_is_map", "c17_union_entries", "c17_nbest_bisect", "c17_bisect_left")]
